@@ -237,6 +237,10 @@ def run(chk, facts):
     chk.rule("R-C08-6", "no element is dropped before it is checked: every zip/take/skip in the checker is length-guarded or reviewed (shared census, rules/quant.py)")
     from .quant import truncation_census
     truncation_census(chk, facts, "R-C08-6")
+    # "an ancestor of E": the answers of Class::has_parent rest on the class itself, Any, or an ancestor (shared with C20)
+    from .c20 import true_grounds
+    chk.rule("R-C20-3", "has_parent answers a literal `true` only on the class itself, Any, or an ancestor's answer (shared with C20)")
+    true_grounds(chk, facts, "R-C20-3")
     chk.notes.append("C08: must-call on MIR for every callee-resolution site; environment field-flow for the caught set; operand provenance in check_raises_caught.")
 
 
